@@ -21,6 +21,11 @@ def patch(owner, name, old, new, count=1):
     if isinstance(raw, (staticmethod, classmethod)):
         raw = raw.__func__
     src = _dedent(inspect.getsource(raw))
+    if src.count(old) != count and inspect.isclass(owner):
+        # `old`/`new` written with the file's indentation: methods are dedented by one level here
+        d = lambda t: "".join(l[4:] if l.startswith("    ") else l for l in t.splitlines(True))
+        if src.count(d(old)) == count:
+            old, new = d(old), d(new)
     if src.count(old) != count:
         raise RuntimeError("patch %s.%s: %r occurs %d times" % (getattr(owner, "__name__", owner), name, old, src.count(old)))
     src = src.replace(old, new)
